@@ -180,5 +180,7 @@ IndentIsDepth == \A h \in AttachedWriters : ~BelowSection(h) => Indent(h) = Dept
 Emit == LastOp.op = "to_text" => PrintT(<<"BEH", ToJson([hist |-> hist, outs |-> outs])>>)
 \* title changes are part of the view: a re-framed heading must be observed in context
 NTitle == Len(SelectSeq(hist, LAMBDA o : o.op = "set_title"))
-View == <<nodes, title, nread, NTitle>>
+\* (whether the last operation was a serialisation is part of the view as well: Emit depends on it, and what TLC
+\* evaluates on a state must not depend on which history reached that state first)
+View == <<nodes, title, nread, NTitle, LastOp.op = "to_text">>
 =============================================================================
